@@ -13,13 +13,15 @@ EXPLANATION = (
     "{0x0200, 0x0400, 0x0800, 0x1000} and rejects 0xe000 (RFC 1952 FLG bits shifted by 8 in the 16-bit CM|FLG word). Write side, "
     "large fields: every call of flush_bytes in deflate() passes a slice whose start is offset by state.gzindex (resume after a "
     "partial write); flush_bytes advances gzindex by what it copied and zeroes it on completion; the two header-CRC bytes are "
-    "written only after room for both was made. That captured bytes equal the stream's and CRC correctness are not decided.")
+    "written only after room for both was made. That captured bytes equal the stream's and CRC correctness are not decided. "
+    "PAIR/header-crc-once: in flush_bytes a CRC update from which a suspension (ControlFlow::Break) is still reachable is taken over the pending buffer, never over the caller's slice (which is handed in again from gzindex). SIB/resume-gzindex advance-before-suspend: between every Pending::extend in flush_bytes and a suspension exit gzindex is advanced.")
 
 CLAIM = dict(
     text="Static bounds (count/offset expression shapes) on the three header-capture copies, mode-graph constraints on the "
          "`done` flag, writer/reader/RFC agreement of the FLG bits (compiler-evaluated constants and MIR atoms), and a sibling "
          "rule that every suspendable header-writing arm resumes from gzindex. Necessary conditions for faithful, bounded header "
-         "handling under any chunking.",
+         "handling under any chunking. "
+         "Also: header bytes enter the header CRC once and gzindex is advanced before every suspension of flush_bytes.",
     note="Trusted: rustc MIR; arm regions; host target.",
     technique="expression-shape guards + mode-graph constraints + sibling resume-offset rule over rustc MIR",
 )
